@@ -249,7 +249,8 @@ def load_known():
 
 
 def write_evidence(prop, ev):
-    d = os.path.join(VERIF, "evidence")
+    # evidence/ describes /repo itself; runs against a scratch worktree (VERIF_REPO) write elsewhere
+    d = os.path.join(VERIF, "evidence" if os.path.realpath(REPO) == "/repo" else "evidence-alt")
     os.makedirs(d, exist_ok=True)
     tmp = os.path.join(d, f".{prop}.json.tmp{os.getpid()}")
     with open(tmp, "w") as f:
@@ -258,7 +259,7 @@ def write_evidence(prop, ev):
 
 
 def write_replay(prop, seed, tier, payload):
-    d = os.path.join(VERIF, "replays")
+    d = os.path.join(VERIF, "replays" if os.path.realpath(REPO) == "/repo" else "replays-alt")
     os.makedirs(d, exist_ok=True)
     p = os.path.join(d, f"{prop}-{tier}-seed{seed}.json")
     with open(p, "w") as f:
